@@ -104,6 +104,13 @@ def _compile_job(job):
 
         out.update(site=pipe_common.exc_site(res.tb, res.exc) if res.status == "internal-exception" else "", status=res.status, exc=(type(res.exc).__name__ + ": " + str(res.exc))[:200] if res.exc is not None else "",
                    tb=res.tb[-800:], out_model=res.out_model, stdout=res.stdout, seen=seen)
+        if res.status == "ok" and res.out_model is not None:
+            import preserve_dump
+
+            # both files as the plain walker sees them (the request format of C11's `preserve`): every verdict on them is Lean's
+            line, _s, _o = preserve_dump.preserve_line(data, res.out_model)
+            out["graph_toks"] = line.split(" ", 1)[1]
+            out["n_src_ops"] = len(_s["subgraphs"][0]["operators"]) if _s["subgraphs"] else 0
         pipeline.reset_process_state()
     except BaseException:  # noqa: B902
         out["harness_exception"] = traceback.format_exc()[-1500:]
@@ -289,18 +296,12 @@ def main():
         return int(e[0]) if e else None
 
     placement, insitu_dis, console_bad = [], [], []
-    judge2, judge2_meta = [], []
     seen_ops = 0
     for (r, k) in pmeta:
         if isinstance(k, int):
             doc, run, docc = pouts[pos], pouts[pos + 1], pouts[pos + 2]
             pos += 3
-            s = r["src"][k]
-            code = builtin_of(s["type"])
-            on_cpu = any(c == code and set(names) == set(s["out_names"]) for c, names in r["cpu_ops"])
-            obs = "cpu" if on_cpu else "npu"
-            judge2 += [f"c16judge {doc.split(' ')[0]} {obs}", f"c16judge {docc.split(' ')[0]} {obs}"]
-            judge2_meta.append((r, k, doc, run, obs, docc))
+            r.setdefault("verdicts", {})[k] = (doc, run, docc)
         else:
             which, verdict, name, dsc = k
             m = pouts[pos]
@@ -312,23 +313,61 @@ def main():
             elif (cm == "npu") != verdict and not cm.startswith("raised"):
                 insitu_dis.append((r, which, verdict, name, dsc, m))
             ck.count(f"insitu_{which}_{'npu' if verdict else 'cpu'}")
-    j2 = ck.model(judge2)
-    nets_ok = set()
-    # soundness of the observation: every non-Ethos-U operator of the output file is one of the source operators
-    unmatched = []
+    # Every source operator is accounted for exactly once, where the report says (Spec/Placement.lean on the two files as
+    # the plain walker sees them): Python only routes the documented verdict of source operator j to position j.
+    creqs, cres = [], []
     for r in results:
-        if r.get("status") != "ok" or "cpu_ops" not in r:
+        if r.get("status") != "ok" or "graph_toks" not in r:
             continue
-        srcs = [(builtin_of(s["type"]), set(s["out_names"])) for s in r.get("src", [])]
-        for c, names in r["cpu_ops"]:
-            if (c, set(names)) not in srcs:
-                unmatched.append((r, c, names))
-    for r, c, names in unmatched[:3]:
-        ck.violation(f"output file holds a CPU operator (builtin {c}, outputs {names}) that is not a source operator ({r['label']}, {r['opts']})",
-                     {"label": r["label"], "opts": r["opts"], "builtin": c, "outputs": names, "seed": ck.seed, "index": r["idx"]})
+        n = r.get("n_src_ops", 0)
+        pred, predc = ["-"] * n, ["-"] * n
+        for k, s in enumerate(r.get("src", [])):
+            if 0 <= s["op_index"] < n and k in r.get("verdicts", {}):
+                doc, _run, docc = r["verdicts"][k]
+                pred[s["op_index"]], predc[s["op_index"]] = doc.split(" ")[0], docc.split(" ")[0]
+        creqs.append(f"c16cover pred={','.join(pred)} predc={','.join(predc)} " + r["graph_toks"])
+        cres.append(r)
+    structure = []
+    judge2_meta = []
+    for r, ans in zip(cres, ck.model(creqs)):
+        head = ans.split(" ", 6)
+        ck.count("cover_" + head[0])
+        if head[0] not in ("ok", "bad", "pre") or len(head) < 6:
+            raise common.InfraError(f"c16cover: unexpected answer {ans[:200]} ({r['label']})")
+        if head[0] == "pre":
+            continue        # the generated SOURCE is malformed on purpose (dangling index ...): nothing to judge
+        f = {t.split("=", 1)[0]: t.split("=", 1)[1] for t in head[1:6]}
+        fates, judged, judgedc = [x.split(",") if x else [] for x in (f["fates"], f["judged"], f["judgedc"])]
+        r["fates"] = fates
+        for ft in fates:
+            ck.count("fate_" + ft)
+        if head[0] == "bad":
+            structure.append((r, head[6] if len(head) > 6 else ""))
+        for k, s in enumerate(r.get("src", [])):
+            j = s["op_index"]
+            if not (0 <= j < len(fates)) or k not in r.get("verdicts", {}):
+                continue
+            doc, run, docc = r["verdicts"][k]
+            judge2_meta.append((r, k, doc, run, fates[j], docc, judged[j], judgedc[j]))
+        # operators of the file the reader did not present (not reachable from an output ...) are judged "accounted" only
+        for j, ok in enumerate(judged):
+            if ok != "1" and not any(s["op_index"] == j for s in r.get("src", [])):
+                structure.append((r, f"unaccounted|source operator {j} (not presented by the reader): {fates[j]}"))
+    nets_ok = set()
+    rep_struct = collections.Counter()
+    for r, probs in structure:
+        for pr in probs.split(" ~ ")[:3]:
+            kind = pr.split("|")[0].strip().split(" ")[-1]
+            rep_struct[kind] += 1
+            ck.count("structure_" + kind)
+            if rep_struct[kind] > 2:
+                continue
+            ck.violation(f"'{r['label']}' ({r['opts'][1]}): {pr[:300]} — a source operator is not accounted for exactly once (inside an Ethos-U operator "
+                         "or verbatim on the CPU), or a CPU-resident operator of the output differs from the source",
+                         {"label": r["label"], "opts": r["opts"], "seed": ck.seed, "index": r["idx"], "problems": probs[:2000], "fates": r.get("fates"),
+                          "lean": "VelaVerif.Placement.report (Spec/Placement.lean)"}, found_input=True)
     committed_doc = []
-    for n, (r, k, doc, run, obs, docc) in enumerate(judge2_meta):
-        j, jc = j2[2 * n], j2[2 * n + 1]
+    for (r, k, doc, run, obs, docc, j, jc) in judge2_meta:
         s = r["src"][k]
         ck.count(f"placement_{s['type']}_{obs}")
         ck.count("pipeline_doc_" + doc.split(" ")[0])
